@@ -161,11 +161,15 @@ func main() {
 		b1, b2 = 2, 1
 	}
 	// singles first: a template that fails alone is attributed to itself and left out of the pairs
-	for _, g := range geos {
-		for _, o := range opts {
-			add(nil, g, o, b1)
+	for gi, g := range geos {
+		for oi, o := range opts {
+			b := b1
+			if r.Thorough() && (gi > 1 || oi > 0) {
+				b = 1 // the deepest bound only on the two base geometries with the base options
+			}
+			add(nil, g, o, b)
 			for _, n := range t.Names {
-				add([]string{n}, g, o, b1)
+				add([]string{n}, g, o, b)
 			}
 		}
 	}
@@ -185,7 +189,7 @@ func main() {
 			}
 		}
 	}
-	r.RunScenarios(scs)
+	r.Phase(0.45, func() { r.RunScenarios(scs) })
 	singleCov := map[string]any{}
 	for k, v := range r.Cov {
 		singleCov[k] = v
@@ -228,7 +232,7 @@ func main() {
 				}
 			}
 		}
-		r.RunScenarios(scs)
+		r.Phase(0.9, func() { r.RunScenarios(scs) })
 		// merge coverage of both phases
 		for _, key := range []string{"states", "transitions", "traces_validated_against_impl", "evaluations", "distinct_nontrivial", "scenarios_total"} {
 			r.Cov[key] = toInt(r.Cov[key]) + toInt(singleCov[key])
